@@ -210,6 +210,11 @@ class Ctx:
     def violation(self, what, replay, key=None):
         self.violations.append({"what": what, "replay": replay, "key": key})
 
+    def new_violations(self):
+        """violations that are not listed known findings"""
+        known = {(k["property"], k["key"]) for k in load_known().get("findings", [])}
+        return [v for v in self.violations if not (v.get("key") and (self.prop, v["key"]) in known)]
+
     def tie_break(self, stage, replay):
         self.tie_breaks.append({"stage": stage, "replay": replay})
 
@@ -290,7 +295,7 @@ def decide(ctx, level="proof", search=None):
     # (an advisory drift of an internal stage — the generated text, the token list, the AST — also buys a deeper search:
     #  the internals changed, so the model vouches for less)
     internal_drift = [d for d in ctx.drifts if d["stage"] not in ("error-class",)]
-    if (ctx.obligation_breaks or ctx.tie_breaks or internal_drift) and not ctx.violations and search is not None:
+    if (ctx.obligation_breaks or ctx.tie_breaks or internal_drift) and not ctx.new_violations() and search is not None:
         ctx.count("deep-search-runs")
         try:
             search(ctx)
@@ -334,6 +339,8 @@ def decide(ctx, level="proof", search=None):
             print("  broken: " + b["what"] + " :: " + b["detail"][:300].replace("\n", " | "))
         for b in ctx.tie_breaks[:3]:
             print("  correspondence: " + b["stage"] + " :: " + json.dumps(b["replay"])[:300])
+        for nt in ctx.notes[:6]:
+            print("  note: " + str(nt)[:300])
         code = 1
         n_viol = 1
     for d in ctx.drifts[:3]:
@@ -418,7 +425,7 @@ def main(prop, run, level="proof", lean_module=None, search=None, argv=None):
             where = [f"{os.path.basename(f.filename)}:{f.lineno} {f.name}" for f in tb[-6:]]
             ctx.violation(f"the implementation raised {type(ex).__name__}: {str(ex)[:160]} during a step the check expects to succeed ({where[-1]})",
                           {"exception": repr(ex)[:400], "traceback": where})
-        if ctx.tier == "thorough" and not child and not ctx.violations:
+        if ctx.tier == "thorough" and not child and not ctx.new_violations():
             flag_rerun(ctx, prop)
         if ctx.tier == "thorough" and ctx.build_ok and not child:
             capped = resource.getrlimit(resource.RLIMIT_AS)
@@ -443,7 +450,7 @@ def main(prop, run, level="proof", lean_module=None, search=None, argv=None):
                         raise
                     except Exception as ex:  # noqa  (the deeper search met an exception of the changed implementation: go on with the other searches)
                         c.notes.append("search raised: " + repr(ex)[:200])
-                if not c.violations:
+                if not c.new_violations():
                     flag_rerun(c, prop)
         code = decide(ctx, level, search)
         print(f"{prop} tier={ctx.tier} seed={seed} cases={ctx.cov['evaluations']} distinct={len(ctx.cov['distinct'])} "
